@@ -1,6 +1,8 @@
 package main
 
 import (
+	"time"
+	"runtime/pprof"
 	"encoding/json"
 	"flag"
 	"fmt"
@@ -16,7 +18,7 @@ func newEngine(prog *ssa.Program, pkg *ssa.Package) *Engine {
 		globals: map[*ssa.Global]int{}, Unwind: 12, MaxDepth: 40,
 		intercept: map[string]func(*Engine, *Frame, *Ctx, []Value, *ssa.CallCommon) (Value, bool){},
 		strVars:   map[string]StrV{}, funcsHit: map[string]int{}, funcInstrs: map[string]int{}, Lazy: true,
-		eager: map[string]bool{}, OpenKeys: map[string]bool{}}
+		eager: map[string]bool{}, OpenKeys: map[string]bool{}, stepsBy: map[*ssa.Function]int{}}
 	e.harnessPkg = pkg
 	e.installIntrinsics(pkg.Pkg.Path())
 	installModels(e)
@@ -103,6 +105,7 @@ func cmdDev(args []string) {
 	open := fs.String("open", "", "comma separated open known-finding keys")
 	nofeas := fs.Bool("nofeas", false, "never query the solver during execution")
 	all := fs.Bool("all", false, "print all obligations, not only the interesting ones")
+	prof := fs.String("cpuprofile", "", "write a CPU profile of the execution")
 	fs.StringVar(&DumpDir, "dump", "", "directory to dump obligations")
 	fs.StringVar(&HarnessDir, "harness", HarnessDir, "harness directory")
 	fs.Parse(args)
@@ -129,6 +132,18 @@ func cmdDev(args []string) {
 			if err := buildReplayBin(spec.ReplayBin); err != nil {
 				fmt.Println("replay build:", err)
 			}
+		}()
+	}
+	if *prof != "" {
+		f, _ := os.Create(*prof)
+		pprof.StartCPUProfile(f)
+		defer pprof.StopCPUProfile()
+		go func() {
+			time.Sleep(time.Duration(*timeout) * time.Second)
+			pprof.StopCPUProfile()
+			f.Close()
+			fmt.Println("profile window over")
+			os.Exit(3)
 		}()
 	}
 	res := runOne(spec, true)
